@@ -175,7 +175,8 @@ func genCalc(r *vh.Rng, stream string) (in []int64, nontrivial bool, desc any) {
 		ratio = vh.Pick(r, []int64{-10, 101, 150, 1000, -1})
 	}
 	ps, _ := genPods(r)
-	in = append([]int64{ratio}, encPods(ps)...)
+	pops := genPops(r, ps)
+	in = append([]int64{ratio}, encPops(pops)...)
 	nops := r.Range(1, 30)
 	if r.Chance(1, 8) {
 		nops = r.Range(0, 3)
@@ -226,7 +227,7 @@ func genCalc(r *vh.Rng, stream string) (in []int64, nontrivial bool, desc any) {
 				}
 			}
 			nodeErr, podsErr := r.Chance(1, 25), r.Chance(1, 25)
-			ops = append(ops, 1, vh.B(nodeErr), lb, ac, am, vh.B(podsErr), policy, uc, um)
+			ops = append(ops, 1, vh.B(nodeErr), lb, ac, am, vh.B(podsErr), policy, uc, um, genPsel(r, len(pops)))
 			if !nodeErr && !podsErr && (lb == 1 || lb == 4) {
 				samples++
 			}
@@ -243,6 +244,23 @@ func genCalc(r *vh.Rng, stream string) (in []int64, nontrivial bool, desc any) {
 			} else {
 				ops = append(ops, 0)
 			}
+			// the allocatable the node has at this report: usually that of the last samples,
+			// sometimes shrunk or grown since (the averaged history then exceeds ratio% of it)
+			rc, rm := acpu, amem
+			switch r.Intn(8) {
+			case 0:
+				rc, rm = acpu/2, amem/2
+			case 1:
+				rc, rm = acpu*int64(r.Range(50, 99))/100, amem/100*int64(r.Range(50, 99))
+			case 2:
+				rc, rm = acpu+1000, amem+amem/4
+			case 3:
+				rc, rm = 0, 0
+			}
+			if stream == "out-of-range" && r.Chance(1, 4) {
+				rc, rm = vh.Pick(r, bigPool), vh.Pick(r, bigPool)
+			}
+			ops = append(ops, rc, rm)
 			if !nodeErr && (lb == 1 || lb == 4) && samples > 0 {
 				reports++
 			}
@@ -256,12 +274,12 @@ func genCalc(r *vh.Rng, stream string) (in []int64, nontrivial bool, desc any) {
 	for i := 0; i < len(ops); {
 		switch ops[i] {
 		case 1:
-			i += 9
+			i += 10
 		case 2:
 			if ops[i+3] == 0 {
-				i += 4
+				i += 6
 			} else {
-				i += 5 + int(ops[i+4])
+				i += 7 + int(ops[i+4])
 			}
 		case 3:
 			i += 3 + int(ops[i+2])
@@ -358,4 +376,37 @@ func gen(rng *vh.Rng, n int, emit func(id string, sel int, in []int64, kind stri
 		}
 		emit(fmt.Sprintf("malformed-%d", i), sel, truncate(rm, in), "malformed", false, nil)
 	}
+}
+
+// pod populations of one history: the generated one and up to two variants
+// (guaranteed pods coming and going between sampling steps)
+func genPops(r *vh.Rng, ps []podTok) [][]podTok {
+	pops := [][]podTok{ps}
+	n := r.Intn(3)
+	for k := 0; k < n; k++ {
+		v := []podTok{}
+		for _, p := range ps {
+			if r.Chance(2, 3) {
+				q := p
+				if r.Chance(1, 4) {
+					q.kqos = int64(r.Intn(3))
+				}
+				v = append(v, q)
+			}
+		}
+		if r.Chance(1, 2) {
+			g := genPod(r, int64(100+k), false)
+			g.kqos, g.qos = 2, 0
+			v = append(v, g)
+		}
+		pops = append(pops, v)
+	}
+	return pops
+}
+
+func genPsel(r *vh.Rng, n int) int64 {
+	if r.Chance(1, 30) {
+		return int64(vh.Pick(r, []int{-1, n, n + 3}))
+	}
+	return int64(r.Intn(n))
 }
